@@ -29,7 +29,7 @@ var numPool = []string{"0", "1", "2", "3", "7", "10", "42", "255", "256", "1000"
 	"(0/0)", "(1/0)", "(0-1/0)", "(0*(0-1))", "(0-9223372036854775808)", "4611686018427387904", "1e21", "1e22"}
 var smallIntPool = []string{"0", "1", "2", "3", "4", "5"}
 var idxPool = []string{"0", "1", "2", "3", "5", "0.5", "1.9", "100", "1e30", "(0-1)", "(0-0.5)", "(0/0)", "(1/0)", "(0-1/0)", "9223372036854775808"}
-var strPool = []string{`""`, `"a"`, `"b"`, `"ab"`, `"hello"`, `"x y"`, `"é"`, `"中文"`, `"a\"b"`, `"a\\b"`, `"\n"`, `"\t"`, "`raw`", "`a\"b`", `"é"`, `"k1"`, `"k2"`}
+var strPool = []string{`"a, b"`, `"x: y"`, `"[a]"`, `"{a: 1}"`, `""`, `"a"`, `"b"`, `"ab"`, `"hello"`, `"x y"`, `"é"`, `"中文"`, `"a\"b"`, `"a\\b"`, `"\n"`, `"\t"`, "`raw`", "`a\"b`", `"é"`, `"k1"`, `"k2"`}
 var keyStrPool = []string{`"k1"`, `"k2"`, `"k3"`, `"a"`, `""`}
 var timePool = []string{"2020-01-02", "2020-01-02 03:04:05", "1999-12-31 23:59", "@86400", "@0", "2038-01-19 03:14:08", "1970-01-01"}
 var regexPats = []string{"a+", "^x", "[", "(", "b?$", "", "é", `\d+`}
